@@ -76,6 +76,10 @@ CLAIMED.update({
            "Coq proof over the builder model + policy-state correspondence after every builder call + behavioural equivalence oracle"),
  "C20": _c("proof", "Theorems C20_escaping_not_applied_twice_partial / C20_rel_tokens_not_repeated: the three mechanisms the property names. Partial: composition over whole documents is checked by the idempotence oracle on every case of the policy class.",
            "DESIGN.md section 5 C20", TIE_NOTE, "Coq proof of the component idempotence lemmas + differential correspondence + idempotence oracle"),
+ "C18": _c("proof", "Theorems C18_regexps_inert / C18_regexps_whole_value / C18_strippers_anchored / C18_keywords_inert / C18_unknown_property: every regexp of css/handlers.go used as a value acceptor matches the whole value and accepts no hostile string (all lengths, by reflection on the regenerated ASTs); "
+           "function-name strippers are anchored; keyword lists contain none of the characters every hostile value needs; the lookup falls back to reject-all. Partial: the composition of these blocks by the handlers' control flow is covered by the bounded-exhaustive search the property text describes (all 213 entries, hostile fragments at every position).",
+           "DESIGN.md section 5 C18", "The translator classifies regexps by use (MatchString vs ReplaceAll/FindString) and recognises the GetDefaultHandler/BaseHandler shapes; the hostile language in Spec/CssInert.v is my reading of the property text. ",
+           "Coq proof by reflection (verified regexp emptiness procedure) on translator-regenerated CSS regexps and keyword lists + bounded-exhaustive hostile-fragment search over all default handlers"),
 })
 
 NOT_YET = {}
